@@ -281,6 +281,22 @@ def judge_direct(run, exp, viol):
         cg, cw = collections.Counter(got), collections.Counter(want)
         extra = sorted((cg - cw).elements())
         missing = sorted((cw - cg).elements())
+        # A join that the reference fails as unreachable in the very step in
+        # which a fail / succeed command ends the workflow: the engine
+        # processes the command in the completing task's transaction and
+        # evaluates joins in a later job, which finds the workflow ended -
+        # the join stays WAITING.  Nothing "starts after the command" either
+        # way; the statement does not order the two.
+        if 'command' in (run.world.case.get('features') or []) and \
+                extra and len(extra) == len(missing) and \
+                all(st == 'WAITING' for _, st in extra) and \
+                all(st == 'ERROR' for _, st in missing) and \
+                sorted(n for n, _ in extra) == \
+                sorted(n for n, _ in missing) and \
+                all(n in exp.failed_joins for n, _ in missing):
+            cnt['REF_JOIN_UNDECIDED_AT_COMMAND'] = \
+                cnt.get('REF_JOIN_UNDECIDED_AT_COMMAND', 0) + 1
+            return
         viol('wrong-tasks', 'task executions differ from the prescribed '
              'ones: unexpected %s, missing %s' % (extra, missing))
         return
